@@ -1,5 +1,5 @@
 (* C02 — Path parameters are exactly the substrings the pattern captured. Property theorems only. *)
-From Rux Require Import Base Rx RxFacts Pattern Pat PatFacts Cache Table TableFacts.
+From Rux Require Import Base Rx RxFacts Pattern Pat PatFacts Cache Table TableFacts PatTable SelectFacts BuildFacts.
 
 (* For every pattern of the documented grammar (any number of variables with default / global / custom
    regexes without capture groups, nested optional tails) and every path its compiled expression matches:
@@ -17,6 +17,11 @@ Theorem C02_params : forall p path ps, pat_ok p -> NoDup (pat_names p) -> pat_pa
     forall i n, nth_error (pat_names p) i = Some n -> assoc n ps = Some (nth i vs []).
 Proof. exact pat_params_sound. Qed.
 
+(* where the decomposition is unique - every variable slash-free and followed by the end or by a literal that begins
+   with '/' - the values are exactly the corresponding path substrings: any two decompositions coincide *)
+Theorem C02_unique : forall its s vs vs', seg_shaped its -> items_den its s vs -> items_den its s vs' -> vs = vs'.
+Proof. exact decomposition_unique. Qed.
+
 (* a pattern matches exactly the paths that have such a decomposition *)
 Theorem C02_matches_iff : forall p path, pat_ok p -> (pat_matches p path = true <-> exists vs, pat_den p path vs).
 Proof. exact pat_matches_iff. Qed.
@@ -33,6 +38,7 @@ Proof. exact match_transparent. Qed.
 
 Print Assumptions C02_captures.
 Print Assumptions C02_params.
+Print Assumptions C02_unique.
 Print Assumptions C02_matches_iff.
 Print Assumptions C02_static.
 Print Assumptions C02_cached.
